@@ -93,6 +93,71 @@ pub fn gen_spec(rng: &mut Rng, o: &GenOpts) -> (Spec, PatClass) {
     // 256-slot blocks (thresholds on the table size, block eviction with every setting)
     let huge = !o.tiny && o.wide_max >= 300 && rng.chance(1, 24);
     let class = if huge { PatClass::Wide } else { class };
+    // states just below the root with more than 128 outgoing edges and exactly equal fan-out
+    // (placement heuristics for wide states, ties between them)
+    if !o.tiny && o.wide_max >= 80 && rng.chance(1, 60) {
+        let k = rng.range(2, 4);
+        let m = rng.range(129, 250);
+        let mut pats: Vec<Vec<u8>> = vec![];
+        for i in 0..k {
+            let mut seconds: Vec<u32> = (0..256u32).collect();
+            rng.shuffle(&mut seconds);
+            seconds.truncate(m);
+            for x in seconds {
+                match variant {
+                    Variant::Bytewise => {
+                        let mut p = vec![b'A' + i as u8, x as u8];
+                        if rng.chance(1, 8) {
+                            p.push(rng.below(256) as u8);
+                        }
+                        pats.push(p);
+                    }
+                    Variant::Charwise => {
+                        let mut p = String::new();
+                        p.push((b'A' + i as u8) as char);
+                        p.push(char::from_u32(0x400 + x).unwrap());
+                        pats.push(p.into_bytes());
+                    }
+                }
+            }
+        }
+        pats.sort();
+        pats.dedup();
+        rng.shuffle(&mut pats);
+        let values: Vec<u64> = (0..pats.len() as u64).collect();
+        return (
+            Spec { variant, kind, num_free_blocks: *rng.pick(&NFB_CHOICES), entry: Entry::WithValues, vtype: VType::U32, patterns: pats, values },
+            PatClass::Wide,
+        );
+    }
+    // extremely rarely: every 3-unit string over 41-43 symbols, i.e. a trie level with more than
+    // 65 536 states (thresholds on the size of a breadth-first level or of the pattern count)
+    if !o.tiny && o.wide_max >= 400 && rng.chance(1, 1500) {
+        let a = rng.range(41, 43) as u32;
+        let mut pats: Vec<Vec<u8>> = Vec::with_capacity((a * a * a) as usize);
+        let sym = |i: u32| -> Vec<u8> {
+            match variant {
+                Variant::Bytewise => vec![0x30 + i as u8],
+                Variant::Charwise => char::from_u32(if i % 2 == 0 { 0x61 + i } else { 0x3b1 + i }).unwrap().to_string().into_bytes(),
+            }
+        };
+        for x in 0..a {
+            for y in 0..a {
+                for z in 0..a {
+                    let mut p = sym(x);
+                    p.extend(sym(y));
+                    p.extend(sym(z));
+                    pats.push(p);
+                }
+            }
+        }
+        rng.shuffle(&mut pats);
+        let values: Vec<u64> = (0..pats.len() as u64).collect();
+        return (
+            Spec { variant, kind, num_free_blocks: *rng.pick(&NFB_CHOICES), entry: Entry::WithValues, vtype: VType::U32, patterns: pats, values },
+            PatClass::Wide,
+        );
+    }
     // very rarely: a handful of enormous patterns, so that per-character / per-state statistics
     // exceed 16-bit ranges (one unit occurs > 65 536 times) while two other units have close
     // counts concentrated at opposite ends of the input order
